@@ -5,10 +5,10 @@ Import ListNotations.
 Open Scope string_scope.
 
 Definition is_ok (r : cres) : bool := match r with COk _ => true | CErr _ => false end.
-Definition pytypes : list string := ["int"; "float"; "bool"; "str"; "list"; "dict"; "Command"; "type"; "ndarray"; "NoneType"].
+Definition pytypes : list string := ["int"; "float"; "bool"; "str"; "list"; "dict"; "Command"; "type"; "ndarray"; "NoneType"; "tuple"].
 (* the kind guard of StringParameter rejects exactly the containers *)
 Definition string_guard_exact (F : pfacts) : bool :=
-  forallb (fun t => Bool.eqb (mem_str t (string_rejects F)) (String.eqb t "list" || String.eqb t "dict")) pytypes.
+  forallb (fun t => Bool.eqb (mem_str t (string_rejects F)) (String.eqb t "list" || String.eqb t "dict" || String.eqb t "tuple")) pytypes.
 
 Section K.
 Variable F : pfacts.
@@ -36,16 +36,16 @@ Proof.
   fix IH 1. intros p v S. destruct p as [| | | |me|out fz|item| | |keys|cls]; simpl in *.
   - reflexivity.
   - unfold clean_string. rewrite string_guard. destruct (scalar_like v); simpl; [destruct (text_of v)|]; reflexivity.
-  - unfold clean_number. destruct v as [z|f t|b|s i fl|l|kv|n|t| |]; simpl; rewrite ?A, ?B, ?C, ?D; try reflexivity.
+  - unfold clean_number. destruct v as [z|f t|b|s i fl|l|kv|n|t| | |]; simpl; rewrite ?A, ?B, ?C, ?D; try reflexivity.
     destruct i; [reflexivity|]. rewrite A. destruct fl; [reflexivity|]. rewrite C. reflexivity.
-  - destruct v as [z|f t|b|s i fl|l|kv|n|t| |]; simpl; try reflexivity.
+  - destruct v as [z|f t|b|s i fl|l|kv|n|t| | |]; simpl; try reflexivity.
     destruct (String.eqb (lower s) "true"); [reflexivity|]. destruct (String.eqb (lower s) "false"); [reflexivity|]. destruct i; reflexivity.
-  - unfold clean_path. rewrite PT. destruct v as [z|f t|b|s i fl|l|kv|n|t| |]; try reflexivity.
+  - unfold clean_path. rewrite PT. destruct v as [z|f t|b|s i fl|l|kv|n|t| | |]; try reflexivity.
     destruct (starts_with_slash s).
     + destruct me; simpl; [|reflexivity]. destruct (path_exists E s); reflexivity.
     + destruct (wd E) as [d|]; [|reflexivity]. destruct me; simpl; [|reflexivity]. destruct (path_exists E (path_join d s)); reflexivity.
   - (* result *)
-    unfold resolves. destruct v as [z|f t|b|s i fl|l|kv|n|t| |]; try reflexivity.
+    unfold resolves. destruct v as [z|f t|b|s i fl|l|kv|n|t| | |]; try reflexivity.
     + destruct (find_cmd (cmds E) s) as [c|] eqn:Fc; [|reflexivity]. rewrite Fc.
       destruct fz as [[|]|]; destruct (ci_fuzzy c); simpl; try reflexivity;
       (destruct out as [o|]; [|reflexivity]; destruct (ci_finished c) as [r|];
@@ -56,9 +56,9 @@ Proof.
        [rewrite <- (IH o r S); destruct (clean o r); reflexivity | destruct (ci_output c); [destruct (accepts _ _ _)|]; reflexivity]).
   - destruct v; try reflexivity. rewrite <- (clean_list_ok (clean item) (kind_ok item) l (fun x => IH item x S)).
     destruct (clean_list (clean item) l); reflexivity.
-  - destruct v as [z|f t|b|s i fl|l|kv|n|t| |]; simpl; try reflexivity. destruct l; reflexivity.
+  - destruct v as [z|f t|b|s i fl|l|kv|n|t| | |]; simpl; try reflexivity. destruct l; reflexivity.
   - destruct v; reflexivity.
-  - unfold clean_datatype. rewrite T, G. destruct v as [z|f t|b|s i fl|l|kv|n|t| |]; simpl; try reflexivity.
+  - unfold clean_datatype. rewrite T, G. destruct v as [z|f t|b|s i fl|l|kv|n|t| | |]; simpl; try reflexivity.
     + destruct (assoc_str keys s); reflexivity.
     + destruct (mem_str t (map snd keys)); reflexivity.
   - discriminate.
